@@ -272,7 +272,13 @@ def case(ctx):
     curved = any(len(seg) > 2 for seg in original)
     # mechanism tag for K-union-tol: a curved curve whose cleaned version is still within
     # 1e-4*L of the curve before clean (the union test accepts deviations up to ~3e-5)
-    case.tags["curved_union_small_dev"] = bool(curved and O.same_curve(before, cleaned, 1e-4 * L)[0])
+    # ... and an original junction must have disappeared / moved: a leftover split point between
+    # two pieces that could be united is another failure (the union was not even tolerant)
+    jt_ = 1e-6 * L
+    orig_j = [seg[0] for seg in original]
+    clean_j = [seg[0] for seg in cleaned]
+    junction_moved = any(all(abs(float(a[0] - b[0])) > jt_ or abs(float(a[1] - b[1])) > jt_ for b in clean_j) for a in orig_j)
+    case.tags["curved_union_small_dev"] = bool(curved and junction_moved and O.same_curve(before, cleaned, 1e-4 * L)[0])
     ok, why = O.same_curve(before, cleaned, tol)
     if not ok:
         case.tags["clean_class"] = True
